@@ -128,6 +128,27 @@ def r2(p, rep):
         raise AnalysisError(f"unrecognised idiom in parse(): digit-axis={found_digit} anonymous-ellipsis={found_anon} ellipsis-id={found_id}")
 
 
+def r9(p, rep):
+    rep.rule("C07.R9", "identifiers that must be fresh per use (ellipsis ids, names of anonymous axes) are not drawn in a default argument, which is evaluated once", "lint over default values (a uuid / counter call in a default is one value for all calls)", floor=1)
+    n = 0
+    for f in p.funcs.values():
+        if not isinstance(f.node, (ast.FunctionDef, ast.AsyncFunctionDef)) or any(f.module.name == m for m in common.OFF_PATH_MODULES):
+            continue
+        k, hits = common.calls_in_defaults(f.node)
+        n += k
+        for prm, d, why in hits:
+            rep.violation("C07.R9", f"{f.qualname}:default({prm})", f"{f.module.rel}:{d.lineno}", f"parameter `{prm}` defaults to `{norm(d)[:60]}`: {why}, so every call that relies on the default gets the SAME value - ellipses wrapped with it share one ellipsis_id and are forced to repeat equally often (RankError for 'b... c...' with different ranks), anonymous axes share one name")
+    rep.ok("C07.R9", "sweep", "einx/", f"{n} default values inspected; none draws a per-call value", nontrivial=False)
+    import os
+
+    pos = os.path.join(os.path.dirname(os.path.dirname(os.path.abspath(__file__))), "selftest", "positive", "call_in_default.py")
+    tree = ast.parse(open(pos).read())
+    fns = {x.name: x for x in tree.body if isinstance(x, ast.FunctionDef)}
+    if len(common.calls_in_defaults(fns["bad"])[1]) != 1 or common.calls_in_defaults(fns["good"])[1]:
+        raise AnalysisError("self-check of the call-in-default lint failed on selftest/positive/call_in_default.py")
+    rep.ok("C07.R9", "self-check:positive-example", "selftest/positive/call_in_default.py", "the lint reports the seeded positive example and is silent on its corrected twin")
+
+
 def r4(p, rep):
     rep.rule("C07.R4", "implicit outputs chosen from a set are taken only when the choice is unique", "T-DOM (singleton guard + documented error)", floor=1)
     f0 = p.func("_parse_op", "adapter.einx_from_namedtensor")
@@ -398,6 +419,7 @@ def run(p, rep, tier):
     r6(p, rep)
     r7(p, rep)
     r8(p, rep)
+    r9(p, rep)
     from . import c06 as _c06
 
     _c06.r8(p, rep)  # memoised parsing makes equal constraint texts share one node: the scalar-for-ellipsis form then fails
